@@ -345,7 +345,7 @@ func (s *Sys) Apply(op string) (obs, class string, viols []bfs.Viol) {
 			} else {
 				s.off = f[2] == "false"
 			}
-			return "params", "params EnableAggregate=" + f[2], s.registryCheck(add)
+			return "params", "params EnableAggregate=" + f[2], append(viols, s.registryCheck(add)...)
 		}
 		if err := content.ValidateBasic(); err != nil {
 			return "invalid-basic", "gov " + f[1] + " refused stateless", nil
@@ -354,9 +354,11 @@ func (s *Sys) Apply(op string) (obs, class string, viols []bfs.Viol) {
 		// a toggle flips the switch of exactly the pair it names (by contract or by any of its denominations)
 		enabledBefore := map[string]bool{}
 		target := ""
+		for _, p := range s.pairs() {
+			enabledBefore[p.ERC20Address] = p.Enabled
+		}
 		if f[1] == "toggle" {
 			for _, p := range s.pairs() {
-				enabledBefore[p.ERC20Address] = p.Enabled
 				if tp := content.(*aggregatetypes.ToggleTokenRelayProposal); strings.EqualFold(tp.Token, p.ERC20Address) {
 					target = p.ERC20Address
 				} else {
@@ -381,22 +383,24 @@ func (s *Sys) Apply(op string) (obs, class string, viols []bfs.Viol) {
 			class = "gov " + f[1] + " failed"
 			obs = class + ": " + err.Error()
 		}
-		if f[1] == "toggle" {
-			for _, p := range s.pairs() {
-				was, known := enabledBefore[p.ERC20Address]
-				want := was
-				if err == nil && p.ERC20Address == target {
-					want = !was
-				}
-				if known && p.Enabled != want {
-					add("C11", "toggle-did-not-flip-exactly-the-named-pair", fmt.Sprintf("%s (err=%v): pair %s %v enabled %v -> %v, want %v", op, err, p.ERC20Address, p.Denoms, was, p.Enabled, want))
-				}
+		// only a toggle changes a pair's switch, and exactly the named pair's; an updated pair carries its switch to the new contract
+		for _, p := range s.pairs() {
+			was, known := enabledBefore[p.ERC20Address]
+			if f[1] == "update" && err == nil && strings.EqualFold(p.ERC20Address, s.addr(f[3]).Hex()) {
+				was, known = enabledBefore[s.addr(f[2]).Hex()]
 			}
-			if err == nil && target == "" {
-				add("C11", "toggle-of-an-unregistered-token-succeeded", op)
+			want := was
+			if f[1] == "toggle" && err == nil && p.ERC20Address == target {
+				want = !was
+			}
+			if known && p.Enabled != want {
+				add("C11", "pair-switch-changed-by-another-action", fmt.Sprintf("%s (err=%v): pair %s %v enabled %v -> %v, want %v", op, err, p.ERC20Address, p.Denoms, was, p.Enabled, want))
 			}
 		}
-		return obs, class, s.registryCheck(add)
+		if f[1] == "toggle" && err == nil && target == "" {
+			add("C11", "toggle-of-an-unregistered-token-succeeded", op)
+		}
+		return obs, class, append(viols, s.registryCheck(add)...)
 	case "reimport": // the aggregate module's state goes through its own genesis export and import (a restart from an exported genesis)
 		var derr string
 		s.w.Do(s.c, func(ctx sdk.Context) {
@@ -423,7 +427,7 @@ func (s *Sys) Apply(op string) (obs, class string, viols []bfs.Viol) {
 		if derr != "" {
 			add("C12", "exported-registry-fails-own-validation", derr)
 		}
-		return "reimported", "registry exported and re-imported", s.registryCheck(add)
+		return "reimported", "registry exported and re-imported", append(viols, s.registryCheck(add)...)
 	case "destruct": // the contract account disappears (as the repository's own tests model self-destruction)
 		t := s.addr(f[1])
 		s.w.Do(s.c, func(ctx sdk.Context) {
